@@ -273,10 +273,23 @@ def _witness(env, ctx):
         if hi is None:
             nice.append(v <= 16)
         nice.append(z3.ToReal(z3.ToInt(v * 16)) == v * 16)
+    nonlin = any(vs & ctx.defined_ids for vs in ctx.cond_vars)
+    if not nonlin:
+        for extra in (nice, []):
+            r, m = ctx.solve(extra, 10000, full=True)
+            if m is not None:
+                return model_inputs(env, m)
+    # non-linear path condition the solver cannot model: fall back to the constraints that mention input
+    # variables only (definitions of derived variables are always satisfiable).  The input may then leave
+    # this path, which is harmless: the claims must hold on every path of the concrete run.
+    sub = [c for c, vs in zip(ctx.conds, ctx.cond_vars) if vs <= ctx.input_ids]
     for extra in (nice, []):
-        r, m = ctx.solve(extra, 10000, full=True)
-        if m is not None:
-            return model_inputs(env, m)
+        s_ = z3.Solver()
+        s_.set("timeout", 10000)
+        s_.add(*sub)
+        s_.add(*extra)
+        if s_.check() == z3.sat:
+            return model_inputs(env, s_.model())
     return None
 
 
